@@ -43,18 +43,31 @@ def healthy_project(rng):
     return files
 
 
+BROKEN_IMPORTS = {
+    "py": ["from os import (path, sep", "import (os", "from . import", "from pkg import a,", "from a import b as", "import os as", "from .. import (x, y))"],
+    "rs": ["use tokio::{fs, io;", "use serde::{Serialize, Deserialize", "use crate::{a::{b, c};", "use tokio::fs, io};", "use futures::{self, stream::{", "use tokio::{fs as , io};",
+           "use async_std::{fs}};", "use ::{fs};", "use tokio::{};", "use tokio::{fs,, io};", "use tokio::{fs, io}", "pub use tokio::{fs", "use tokio::{\n    fs,\n    io"],
+    "ts": ['import { a, b from "x";', 'import { a, } "x"', 'import * as from "y";', "export { a, b", 'import { a as } from "z";', 'import {{ a }} from "w";'],
+}
+
+
+LAST_BASE = [None]      # the valid file an offending file was made from by *appending* valid but extreme code (side channel of mutate)
+TAIL_KINDS = ("deep_nesting", "deep_nesting_small", "long_line", "long_chain", "huge_int", "surrogate", "long_identifier")
+
+
 def mutate(rng, kind_hint=None):
     """returns (relative name, bytes, description)"""
-    lang = "py" if kind_hint == "long_directive" and rng.random() < 0.7 else rng.choice(["py", "py", "ts", "js", "rs", "rs"])
+    lang = "py" if kind_hint in ("long_directive", "long_chain", "deep_nesting") and rng.random() < 0.7 else rng.choice(["py", "py", "ts", "js", "rs", "rs"])
     src_lang = "ts" if lang == "js" else lang
     base, _pl, _meta = gen_file(rng, src_lang, "bad", n_units=rng.randint(3, 6), layout=True)
     data = base.encode("utf-8")
     ext = EXTS[lang]
     kinds = ["empty", "whitespace", "random_bytes", "invalid_utf8", "bom_only", "nul", "lone_cr", "mixed_eol", "truncate", "truncate", "token_delete", "token_dup",
              "truncate_line", "truncate_line", "bracket", "byte_damage", "deep_nesting", "deep_nesting_small", "long_line", "long_chain", "huge_int", "surrogate", "long_directive", "unknown_ext",
-             "shebang", "long_identifier", "only_comment", "unterminated_string"]
+             "shebang", "long_identifier", "only_comment", "unterminated_string", "broken_import", "broken_import"]
     kind = kind_hint or rng.choice(kinds)
     name = f"src/bad_{kind}{ext}"
+    LAST_BASE[0] = data if kind in TAIL_KINDS else None
     if kind == "empty":
         return name, b"", kind
     if kind == "whitespace":
@@ -127,7 +140,7 @@ def mutate(rng, kind_hint=None):
             text = base + "\nconst long = \"" + "x" * n + "\";\n"
         return name, text.encode("utf-8"), f"{kind}:{n}"
     if kind == "long_chain":
-        n = rng.choice([200, 3000])
+        n = rng.choice([200, 600, 600, 900, 900, 3000])
         expr = " + ".join(["a"] * n)
         if lang == "py":
             text = base + f"\ndef chain(a):\n    return {expr}\n"
@@ -169,6 +182,17 @@ def mutate(rng, kind_hint=None):
         first = rng.choice(["#!/usr/bin/env python3", "#!/bin/sh -c 'exec python", '#!/usr/bin/env "python', "#!", "#!/usr/bin/python\x00", "#! /usr/bin/env node", "#!/bin/bash",
                             "#!/usr/bin/env python3 " + "x" * 10000])
         return "src/bad_script" + rng.choice(["", ".cgi", ".run"]), (first + "\n").encode("utf-8", "replace") + data, kind
+    if kind == "broken_import":
+        # import / use statements whose group syntax is damaged (the analyzers that read imports as text must cope)
+        stmts = BROKEN_IMPORTS[src_lang] if False else {"py": ["from os import (path, sep", "import (os", "from . import", "from pkg import a,", "from a import b as", "import os as", "from .. import (x, y))"],
+                 "rs": ["use tokio::{fs, io;", "use serde::{Serialize, Deserialize", "use crate::{a::{b, c};", "use tokio::fs, io};", "use futures::{self, stream::{", "use tokio::{fs as , io};",
+                        "use async_std::{fs}};", "use ::{fs};", "use tokio::{};", "use tokio::{fs,, io};"],
+                 "ts": ['import { a, b from "x";', 'import { a, } "x"', 'import * as from "y";', "export { a, b", 'import { a as } from "z";', 'import {{ a }} from "w";']}[src_lang]
+        lines = base.split("\n")
+        at = 1 if src_lang == "py" and lines and lines[0].startswith('"""') else 0
+        picked = rng.sample(stmts, rng.randint(1, 2))
+        text = "\n".join(lines[:at] + picked + lines[at:])
+        return name, text.encode("utf-8"), f"{kind}:{picked[0][:24]}"
     if kind == "long_identifier":
         ident = "v" * rng.choice([5000, 80000])
         text = base + (f"\n{ident} = 4242\n" if lang == "py" else f"\nfn {ident}() {{}}\n" if lang == "rs" else f"\nconst {ident} = 4242;\n")
@@ -212,7 +236,8 @@ def run_cmd_once(proj: Path, cmd: str, faillog: Path, limit: int):
 
 
 def impl_case(args):
-    idx, healthy, bad_files, cmds, root = args
+    idx, healthy, bad_files, cmds, root = args[:5]
+    base_only = args[5] if len(args) > 5 else None
     import yaml
     proj = Path(root) / f"p{idx}"
     res = {"errors": [], "runs": {}}
@@ -232,6 +257,12 @@ def impl_case(args):
             bad.write_bytes(bad_bytes)
         for cmd in cmds:
             res["runs"][cmd]["with"] = run_cmd(proj, cmd, faillog)
+        if base_only:
+            # the same file without the extreme code that was appended to it: what the rules find in the ordinary part
+            for bad_name, base_bytes in base_only:
+                (proj / bad_name).write_bytes(base_bytes)
+            for cmd in cmds:
+                res["runs"][cmd]["base_only"] = run_cmd(proj, cmd, faillog)
     except Exception as exc:  # noqa: BLE001
         res["errors"].append(f"{type(exc).__name__}: {exc}")
     finally:
@@ -271,7 +302,7 @@ def run(tier: str, seed: int, st: core.ProofStatus) -> core.Result:
     cases = []
     kinds_cycle = ["empty", "whitespace", "random_bytes", "invalid_utf8", "bom_only", "nul", "lone_cr", "mixed_eol", "truncate", "token_delete", "token_dup", "bracket", "byte_damage",
                    "deep_nesting", "deep_nesting_small", "long_line", "long_chain", "huge_int", "surrogate", "long_directive", "unknown_ext", "shebang", "long_identifier",
-                   "only_comment", "unterminated_string", "truncate", "truncate_line", "truncate_line", "truncate_line", "long_directive", "truncate_line", "truncate_line"]
+                   "only_comment", "unterminated_string", "broken_import", "long_chain", "long_chain", "deep_nesting", "truncate", "truncate_line", "truncate_line", "truncate_line", "long_directive", "truncate_line", "truncate_line"]
     for i in range(n):
         healthy = healthy_project(rng)
         if i < 3 or (i >= len(kinds_cycle) and rng.random() < 0.05):
@@ -281,6 +312,14 @@ def run(tier: str, seed: int, st: core.ProofStatus) -> core.Result:
             lines = base.split("\n")
             bad_files = [(f"src/cut/prefix_{k:03d}.{lang}", ("\n".join(lines[:k]) + ("\n" if k % 2 else "")).encode("utf-8")) for k in range(1, len(lines))]
             kind = "prefix_sweep"
+        elif i == 4 or (i >= len(kinds_cycle) and rng.random() < 0.03):
+            # import sweep: every damaged import / use statement of every language on top of a valid file, all in one run
+            bad_files = []
+            for lang in ("py", "ts", "rs"):
+                base, _pl, _meta = gen_file(rng, lang, "imp", n_units=3, layout=False)
+                for k, stmt in enumerate(BROKEN_IMPORTS[lang]):
+                    bad_files.append((f"src/imports/broken_{k:02d}.{lang}", (stmt + "\n" + base).encode("utf-8")))
+            kind = "import_sweep"
         elif i == 3 or (i >= len(kinds_cycle) and rng.random() < 0.03):
             # shebang sweep: every shebang shape on extension-less / oddly named scripts, all in one run
             base, _pl, _meta = gen_file(rng, "py", "sb", n_units=3, layout=False)
@@ -289,17 +328,21 @@ def run(tier: str, seed: int, st: core.ProofStatus) -> core.Result:
             bad_files = [(f"src/scripts/tool_{k}{ext}", (first + "\n" + base).encode("utf-8")) for k, first in enumerate(firsts) for ext in ("", ".cgi")]
             kind = "shebang_sweep"
         else:
-            name, data, kind = mutate(rng, kinds_cycle[i - 4] if 0 <= i - 4 < len(kinds_cycle) else None)       # every kind at least once per run
+            name, data, kind = mutate(rng, kinds_cycle[i - 5] if 0 <= i - 5 < len(kinds_cycle) else None)       # every kind at least once per run
             bad_files = [(name, data)]
         cmds = rng.sample(COMMANDS, 2)
-        cases.append((healthy, bad_files, kind, cmds))
+        if len(bad_files) == 1 and kind.split(":")[0] in TAIL_KINDS:
+            cmds = sorted(set(cmds) | {"magic-numbers", "nesting"})      # rules that have findings in the ordinary part of most generated files
+        base_only = [(bad_files[0][0], LAST_BASE[0])] if len(bad_files) == 1 and kind.split(":")[0] in TAIL_KINDS and LAST_BASE[0] is not None else None
+        LAST_BASE[0] = None
+        cases.append((healthy, bad_files, kind, cmds, base_only))
     root = core.scratch_dir("c11")
     try:
-        impls = core.pmap(impl_case, [(i, c[0], c[1], c[3], str(root)) for i, c in enumerate(cases)], procs=16, chunksize=1)
+        impls = core.pmap(impl_case, [(i, c[0], c[1], c[3], str(root), c[4]) for i, c in enumerate(cases)], procs=16, chunksize=1)
     finally:
         shutil.rmtree(root, ignore_errors=True)
     drv = core.Driver()
-    for (healthy, bad_files, kind, cmds), im in zip(cases, impls):
+    for (healthy, bad_files, kind, cmds, base_only), im in zip(cases, impls):
         res.evaluations += 1
         res.bump("kind", kind.split(":")[0])
         name, data = bad_files[0]
@@ -336,6 +379,18 @@ def run(tier: str, seed: int, st: core.ProofStatus) -> core.Result:
                     res.nontrivial.add(core.canon([name, cmd, res.evaluations]))
                 if sib_w != sib_b:
                     problems.append(f"{cmd}: findings of the sibling files changed: gained {[v for v in sib_w if v not in sib_b][:2]} lost {[v for v in sib_b if v not in sib_w][:2]}")
+            # --- appended extreme code must not cost the ordinary part of the same file its findings, except for the rules that
+            #     recorded a failure on this file (those are judged above / by the known findings)
+            bo = runs.get("base_only")
+            if bo and bo.get("violations") is not None and w["violations"] is not None and not w["timeout"]:
+                failed_rules = {fl["rule"].split(".")[0] for fl in w["fails"] if Path(fl["file"]).name == Path(name).name}
+                n_base_lines = base_only[0][1].count(b"\n") + 1
+                had = [v for v in bo["violations"] if v[0] in bad_names and not v[3].startswith(CROSS_FILE)]
+                have = [v for v in w["violations"] if v[0] in bad_names and v[1] <= n_base_lines]
+                lost = [v for v in had if v not in have and v[3].split(".")[0] not in failed_rules]
+                res.bump("ordinary part of the offending file", "has findings" if had else "no findings for these commands")
+                if lost:
+                    problems.append(f"{cmd}: findings in the ordinary part of {name} vanish when the extreme code is appended although their rule recorded no failure: {lost[:2]}")
             # --- the Lean isolation model on the observed behaviours
             if not w["timeout"] and w["violations"] is not None:
                 files_order = sorted(set(healthy) | bad_names)
@@ -368,7 +423,7 @@ def run(tier: str, seed: int, st: core.ProofStatus) -> core.Result:
             if problems:
                 pinfo = {"exit": w["exit"], "err": w["err"], "fails": w["fails"]}
                 known = finding_of(kind, pinfo)
-                only_known_symptom = known and not any("sibling" in p or "model" in p or "no result" in p for p in problems)
+                only_known_symptom = known and not any("sibling" in p or "model" in p or "no result" in p or "vanish" in p for p in problems)
                 if only_known_symptom:
                     res.findings.setdefault(known, {"kind": kind, "offending_name": name, "command": cmd, "symptom": problems[0][:300], "offending_len": len(data)})
                 else:
